@@ -489,6 +489,12 @@ func mutate(v, mut string, arg int) string {
 			return v
 		}
 		return v[:len(v)-1-(arg%len(v))]
+	case "tail":
+		// the last 1..len-1 characters
+		if len(v) < 2 {
+			return v
+		}
+		return v[1+(arg%(len(v)-1)):]
 	case "truncbytes":
 		if b, err := base64.URLEncoding.DecodeString(v); err == nil && len(b) > 0 {
 			return base64.URLEncoding.EncodeToString(b[:len(b)-1-(arg%len(b))])
